@@ -69,6 +69,9 @@ def sync_lock(crate_dir):
         shutil.copy(src, dst)
 
 
+BUILD_NOTES = []
+
+
 def build_native(profile="dev", features=None, toolchain=None, rustflags=None, target=None, build_std=False, tag="native"):
     """Build /verif/harness/native against /repo's current working tree.  Returns the executable."""
     crate = os.path.join(VERIF, "harness", "native")
@@ -92,6 +95,20 @@ def build_native(profile="dev", features=None, toolchain=None, rustflags=None, t
         # all native builds share the crate directory (and its Cargo.lock copy)
         sync_lock(crate)
         rc, out = sh(cmd, cwd=crate, env=env_offline(extra), timeout=1800)
+        if rc != 0 and "--no-default-features" not in cmd:
+            # the tree under test represents the call-count verifier differently (its fields are public, but they are
+            # an implementation detail): build without the harness's access to them; counter-based oracles are off
+            tdir = os.path.join(BUILD, tag + "-noccv")
+            extra["CARGO_TARGET_DIR"] = tdir
+            cmd2 = [c for c in cmd]
+            cmd2.insert(cmd2.index("build") + 1, "--no-default-features")
+            rc, out2 = sh(cmd2, cwd=crate, env=env_offline(extra), timeout=1800)
+            if rc == 0:
+                note = "native harness built WITHOUT access to CallCountVerifier's fields (they differ in the tree under test): counter-based oracles and harness-side zeroing are off"
+                if note not in BUILD_NOTES:
+                    BUILD_NOTES.append(note)
+            else:
+                out = out2
     if rc != 0:
         raise HarnessError("native harness does not build against the tree under test:\n" + out[-4000:])
     sub = "release" if profile == "release" else "debug"
@@ -328,6 +345,9 @@ class Run:
         self.observed[key] = value
 
     def finish(self, replay_args=None):
+        for n in BUILD_NOTES:
+            if n not in self.notes:
+                self.notes.append(n)
         known, _fixed = load_known()
         known = [k for k in known if k["property"] == self.pid]
         decided = [c for c in self.cases if c["verdict"] in ("held", "violated")]
